@@ -131,7 +131,7 @@ pub struct Faulty {
     pub step: u8,
     pub plan: Vec<Fault>,
     pub log: Rc<RefCell<FaultLog>>,
-    /// 0: a malformed outcome is the fixed hand-written reply; 1..=4: it is the valid reply cut short (half, last byte off, five bytes, one byte)
+    /// 0: a malformed outcome is the fixed hand-written reply; 1..=4: it is the valid reply cut short (half, last byte off, five bytes, one byte); 5: an empty datagram / an empty stream
     pub mangle: u8,
     cur: Fault,
     cur_step: u8,
@@ -223,6 +223,13 @@ impl Responder for Faulty {
                     out.conn.inbox.truncate(if produced >= 2 && counted { n_dg + 1 } else { n_dg });
                     if produced >= 2 && counted {
                         self.log.borrow_mut().partial_hits += 1;
+                    }
+                }
+                // an empty reply: no valid reply of any protocol is empty
+                Fault::Malformed if self.mangle == 5 => {
+                    match proto {
+                        Proto::Udp => out.datagram(Vec::new()),
+                        Proto::Tcp => out.close(),
                     }
                 }
                 Fault::Malformed if self.mangle != 0 && mangle_applies(self.family) => {
